@@ -874,6 +874,14 @@ class TextXVisitor(RRELVisitor):
                 elif repeat_op == "+":
                     rule = OneOrMore(nodes=[expr])
                 else:
+                    if not isinstance(expr, Sequence):
+                        line, col = self.grammar_parser.pos_to_linecol(node.position)
+                        raise TextXSyntaxError(
+                            'Unordered group operator "#" must be applied to a '
+                            f"bracketed group of expressions at {(line, col)}",
+                            line,
+                            col,
+                        )
                     rule = UnorderedGroup(nodes=expr.nodes)
 
                 if modifiers:
